@@ -357,7 +357,7 @@ thread_local! {
     /// across 2^16 and 2^17 with gaps, just below 2^16, far up - in some of the cases
     static ID_SCALE: std::cell::Cell<(u32, u32)> = const { std::cell::Cell::new((0, 1)) };
 }
-const ID_SCALES: [(u32, u32); 12] = [(0, 1), (0, 1), (0, 1), (0, 16), (0, 32), (30_000, 9), (40_000, 23), (65_000, 1), (65_530, 1), (61_000, 2), (1 << 22, 1), (0x7fff_0000, 3)];
+const ID_SCALES: [(u32, u32); 16] = [(0, 1), (0, 1), (0, 1), (0, 16), (0, 32), (30_000, 9), (40_000, 23), (65_000, 1), (65_530, 1), (61_000, 2), (1 << 22, 1), (0x7fff_0000, 3), (999_000, 1), (998_000, 1), (99_000, 1), (0, 256)];
 /// ids the generator never declares ("unknown to the lifter"): above every declared id (5000.. and
 /// 6000.. in the unscaled case, as before)
 fn unknown_id(off: u32) -> u32 {
@@ -528,6 +528,24 @@ fn base_module(cs: &mut Cs, rich: bool) -> Base {
                     consts.push(id);
                 }
             }
+        }
+    }
+    // one module in twelve holds a type whose constructor chain is hundreds of levels deep: pointer
+    // to pointer to ..., array of array of ..., or a struct nested in a struct in ... (around the
+    // universal limit of 255 and well beyond); declared before use like everything else
+    if rich && cs.below(12) == 0 && !consts.is_empty() {
+        let depth = [254usize, 255, 256, 257, 300, 1_000][cs.below(6)];
+        let kind = cs.below(4);
+        let mut prev = [int_ty, float_ty][cs.below(2)];
+        let len = consts[0];
+        for d in 0..depth {
+            let id = fresh();
+            match if kind == 3 { d % 3 } else { kind } {
+                0 => t(&mut m, &mut types, id, spirv::Op::TypePointer, vec![enum_operand(K::StorageClass, 7).unwrap(), Operand::IdRef(prev)]),
+                1 => t(&mut m, &mut types, id, spirv::Op::TypeArray, vec![Operand::IdRef(prev), Operand::IdRef(len)]),
+                _ => t(&mut m, &mut types, id, spirv::Op::TypeStruct, vec![Operand::IdRef(prev)]),
+            }
+            prev = id;
         }
     }
     let fn_ty = fresh();
